@@ -518,8 +518,14 @@ func (p *Packer) validSymlink(root, path, target string) (bool, error) {
 		absTarget = filepath.Join(filepath.Dir(absPath), target)
 	}
 
-	// Target falls within root.
-	if strings.HasPrefix(absTarget, absRoot) {
+	// Target falls within root. The comparison is made against root with a
+	// trailing separator, so that a sibling directory whose name merely
+	// starts with root's name (root-other) does not count as inside root.
+	rootPrefix := absRoot
+	if !strings.HasSuffix(rootPrefix, string(filepath.Separator)) {
+		rootPrefix += string(filepath.Separator)
+	}
+	if absTarget == absRoot || strings.HasPrefix(absTarget, rootPrefix) {
 		return true, nil
 	}
 
